@@ -13,6 +13,7 @@ import tempfile
 
 REPO = os.environ.get("VERIF_REPO", "/repo")
 
+os.environ.setdefault("VERIF_ORIG_HOME", os.environ.get("HOME", "/root"))
 _home = tempfile.mkdtemp(prefix="verif-home-", dir="/dev/shm" if os.path.isdir("/dev/shm") else None)
 _owner_pid = os.getpid()
 
@@ -38,6 +39,10 @@ for k in ("LANG", "LC_ALL", "LC_CTYPE"):
 
 if REPO not in sys.path:
     sys.path.insert(0, REPO)
+
+from . import rustbuild  # noqa: E402
+
+RUST_REDIRECTED = rustbuild.ensure(REPO)
 
 import breezy  # noqa: E402
 
